@@ -44,6 +44,16 @@ Theorem C20_multi_distance_quote_exact : forall dur dist steps t,
   total_distance dist (apply_steps dur t steps) - route_distance dist t = multi_leg dur dist t steps.
 Proof. intros. unfold route_distance. apply multi_leg_exact; assumption. Qed.
 
+(* the same for the combined cost objective: route-level quote once + activity-level quotes on the shadow tours, when neither the tour
+   before, nor any shadow tour, nor the final tour has waiting and the time rates are uniform *)
+Theorem C20_multi_cost_quote_exact_nowait : forall dur dist v,
+  v_ptime v = v_psvc v -> v_psvc v = v_pwait v -> forall steps t,
+  steps <> [] -> steps_ok dur t steps -> sched_ok dur t -> shadow_no_wait dur t steps ->
+  (has_jobs t = false -> (length t <= 2)%nat /\ fst (hd (0%nat, mkAct 0 0 0 0 0 dzero 0 0) steps) = 0%nat) ->
+  cost_fitness dist v (apply_steps dur t steps) - route_cost dist v t
+  = cost_estimate_route v t + multi_cost_sum dur dist v t steps.
+Proof. exact multi_cost_exact_nowait. Qed.
+
 Theorem C20_value_quote_exact : forall value s route j,
   (forall k, route = Some k -> (k < length (so_routes s))%nat) ->
   fit_value value (apply_ins s route j) - fit_value value s = quote_value value j.
